@@ -291,6 +291,10 @@ def run(F, res, tier):
     every_child_is_inferred(F, res)
     literal_tables(F, res)
     resolutions_are_not_memoised_by_name(F, res)
+    unknowns_are_numbered_by_the_counter(F, res)
+    from rules import c05 as _c05
+    _c05.lowering_takes_every_child_of_a_list(F, res, rule="Y17")
+    _c05.alternatives_bind_one_name_once(F, res, rule="Y17")
     from rules import c10 as _c10
     _c10.inference_is_memoised(F, res, rule="Y13")
 
@@ -871,3 +875,55 @@ def resolutions_are_not_memoised_by_name(F, res, rule="Y15"):
     res.floor("functions of crate ide that resolve names through a per-expression resolver", n, 4)
     res.ob(rule, "resolution/not-memoised-by-name", "no function that resolves names in the scope of an expression keeps the outcomes in a table keyed by the name alone",
            not bad, where="crates/ide/src", how="%d functions, none with a name-keyed table of resolution outcomes" % n if not bad else "; ".join(sorted(set(bad))[:4]))
+
+
+def unknowns_are_numbered_by_the_counter(F, res, rule="Y16"):
+    """Y16: the number inside `Ty::Unknown { idx }` is what tells two free type variables apart when a type is frozen (the Collector
+    gives one letter per idx, Y7 keeps the smaller of two when they are unified). It comes out of one counter (InferCtx.idx, carried
+    from one member of a recursion group to the next: Y8). A variable tagged with a number from another space - its index in the
+    union-find table, a length - collides with whatever variable the counter gave that number: `fn f(x: a, y) -> b` showed
+    `fn f(a, b) -> b`, because the variable of `b` was re-tagged with its table index, which is the counter value of the variable
+    made just before it. Every Ty::Unknown built in the inferencer takes its idx from the counter field, from another Unknown (the
+    minimum in unify), or is the constant placeholder."""
+    TY = "ide::ty::infer::Ty"
+    n, bad = 0, []
+    for p_, f in sorted(F.fns.items()):
+        if not p_.startswith(("ide::ty::infer::", "<ide::ty::infer::")) or not f.blocks:
+            continue
+        d = None
+        for b, i, s_ in f.stmts():
+            rv = s_.get("rv") or {}
+            if not (rv.get("k") == "agg" and rv.get("adt") == TY and rv.get("variant") == "Unknown" and rv.get("ops")):
+                continue
+            n += 1
+            op = rv["ops"][0]
+            if "k" in op:
+                continue                        # a constant: the placeholder
+            d = d or FL.Defs(f)
+            o = d.origin_op(op)
+            ok = False
+            why = o.get("k")
+            if o.get("k") == "field":
+                names = [e.get("n") for e in o.get("proj", []) if isinstance(e, dict) and "f" in e]
+                base_l = o["base"].get("l")
+                bty = f.local_ty(base_l) if base_l is not None else ""
+                if "idx" in names:
+                    ok = True                   # the counter field, or the payload of another Unknown
+                elif "{closure@" in (bty or "") and len(names) == 1:
+                    ok = True                   # a counter of the enclosing function, captured (the variables made before any context exists)
+                why = "field %s of a %s" % (names, bty)
+            elif o.get("k") == "call":
+                c = FL.short(callee(o["t"]) or callee_def(o["t"]) or "")
+                ok = c.rsplit("::", 1)[-1] in ("min", "max", "clone")
+                why = "the answer of %s" % c
+            elif o.get("k") in ("arg", "multi", "rv"):
+                # a parameter / a value with several definitions: accept when its type is not a table index
+                l = o.get("l")
+                ok = "TyVar" not in (f.local_ty(l) or "") if l is not None else False
+                why = "%s of type %s" % (o.get("k"), f.local_ty(l) if l is not None else "?")
+            if not ok:
+                bad.append("%s line %s: idx taken from %s" % (FL.short(p_), s_["ln"], why))
+    res.floor("Ty::Unknown values built in the inferencer", n, 4)
+    res.ob(rule, "unknown/idx-from-the-counter", "every Ty::Unknown built in the inferencer is numbered by the counter (or by another Unknown, or is the constant "
+           "placeholder), never by an index into the variable table", not bad, where="crates/ide/src/ty/infer.rs",
+           how="%d constructions" % n if not bad else "; ".join(bad))
